@@ -449,11 +449,8 @@ def aimed(node, v, rng):
                 yield BytesSub(fx), "equal_subclass_instance"
             elif k == "float":
                 yield FloatSub(fx), "equal_subclass_instance"
-            elif k == "datetime":
-                yield DateTimeSub(fx.year, fx.month, fx.day, fx.hour, fx.minute, fx.second, fx.microsecond, fx.tzinfo), \
-                    "equal_subclass_instance"
-            elif k == "date":
-                yield DateSub(fx.year, fx.month, fx.day), "equal_subclass_instance"
+            # (date / datetime subclasses are left out on purpose: CPython compares a *subclass* of date with a datetime
+            # by the date part only, a quirk of the stdlib that is no fair input for these oracles)
         except Exception:
             pass
     if k == "int" and isinstance(v, int) and not isinstance(v, bool):
